@@ -3,7 +3,8 @@
    homomorphism K32 -> R in Proofs/CycloProofs.v.  Gen_NvDecomp is regenerated
    from the live NVSubroutineTranspiler on every run. *)
 From Coq Require Import ZArith List Bool String QArith.
-From NQ Require Import Base.Cyclo Base.QMat Nv.NvSem Proofs.QMatProofs Proofs.CycloProofs.
+From NQ Require Import Base.Cyclo Base.QMat Nv.NvSem Proofs.QMatProofs Proofs.CycloProofs
+     Proofs.QMatLift Proofs.NvLift.
 From Gen Require Import Gen_NvDecomp.
 Import ListNotations.
 
@@ -65,6 +66,16 @@ Qed.
 Theorem C07_eval_hom : eval_hom_statement.
 Proof. exact eval_hom. Qed.
 
+(* ... and so does every table row as an operator identity: in EVERY such ring the
+   circuit computed there from the ring images of the NV gate matrices equals
+   omega^p times the image of the vanilla gate (non-MOV rows). *)
+Theorem C07_circuit_lift : circuit_lift_statement.
+Proof. exact circuit_lift_all. Qed.
+
+Theorem C07_decomp_in_every_ring :
+  forall r, In r gen_rows -> r_gate r <> VMov -> row_in_every_ring r.
+Proof. intros r Hin Hm. exact (row_spec_lifts r Hm (C07_decomp_equiv_row r Hin)). Qed.
+
 (* non-vacuity: the table contains the 27-gate carbon-carbon CNOT, whose spec is
    I (x) CNOT on three wires, and an S row whose sequence is NOT S-dagger *)
 Example C07_nonvacuous :
@@ -81,3 +92,4 @@ Print Assumptions C07_rot_hw_same_operator.
 Print Assumptions C07_rot_sim_passthrough.
 Print Assumptions C07_rot_hw_table.
 Print Assumptions C07_eval_hom.
+Print Assumptions C07_decomp_in_every_ring.
